@@ -48,6 +48,8 @@ type guardSite struct {
 	// DefName: a local variable defined as the first result of a call to this function is read under
 	// this (canonical) name, the one the keys of Map use
 	DefName map[string]string
+	// Arith: also render every slice / array index and every shift count of the function
+	Arith bool
 }
 
 type valueCase struct{ cond, val string }
@@ -66,6 +68,9 @@ type guardTr struct {
 	skips    []string    // conditions under which a loop iteration is skipped (`continue`)
 	breaks   []string    // conditions under which a loop is left (`break`)
 	flagSets map[string][2][]string // Boolean local -> conditions under which it is assigned false / true
+	indices  []string               // every index expression x[i], in source order
+	shifts   []string               // every shift count a << k
+	loopInit []string               // initial value of the loop variable of every `for i := e; …`
 	loops    []string    // loop conditions
 	cases    []valueCase // Boolean functions: condition -> returned literal, in source order
 	deflt    string      // Boolean functions: the final return
@@ -458,6 +463,10 @@ func (tr *guardTr) walk(b *ast.BlockStmt, path string, top bool) {
 		case *ast.ForStmt:
 			tr.scopes = append(tr.scopes, map[string]string{})
 			if as, ok := s.Init.(*ast.AssignStmt); ok {
+				if tr.site.Arith && len(as.Rhs) == 1 {
+					v, _ := tr.intExpr(as.Rhs[0])
+					tr.loopInit = append(tr.loopInit, v)
+				}
 				for _, l := range as.Lhs {
 					if id, ok := l.(*ast.Ident); ok {
 						if _, declared := tr.site.Map[id.Name]; !declared {
@@ -670,6 +679,32 @@ func genGuardFile(file string, sites []guardSite) {
 			}
 		}
 		tr.walk(fd.Body, "", true)
+		if s.Arith {
+			// index expressions and shift counts, rendered with the top-level definitions in scope
+			tr.scopes = []map[string]string{{}}
+			for _, st := range fd.Body.List {
+				if as, ok := st.(*ast.AssignStmt); ok && as.Tok == token.DEFINE {
+					tr.assign(as.Lhs, as.Rhs, true)
+				}
+			}
+			ast.Inspect(fd.Body, func(n ast.Node) bool {
+				switch x := n.(type) {
+				case *ast.AssignStmt:
+					if x.Tok == token.DEFINE {
+						tr.assign(x.Lhs, x.Rhs, true)
+					}
+				case *ast.IndexExpr:
+					v, _ := tr.intExpr(x.Index)
+					tr.indices = append(tr.indices, v)
+				case *ast.BinaryExpr:
+					if x.Op == token.SHL || x.Op == token.SHR {
+						v, _ := tr.intExpr(x.Y)
+						tr.shifts = append(tr.shifts, v)
+					}
+				}
+				return true
+			})
+		}
 		var ps []string
 		for _, p := range s.Params {
 			if n, t, typed := strings.Cut(p, ":"); typed {
@@ -696,6 +731,11 @@ func genGuardFile(file string, sites []guardSite) {
 		}
 		if len(tr.skips) > 0 {
 			fmt.Fprintf(&sb, "/-- the conditions under which a loop iteration is skipped -/\ndef %s_skips%s : List Bool := %s\n\n", s.Name, params, leanBoolList(tr.skips))
+		}
+		if s.Arith {
+			fmt.Fprintf(&sb, "/-- every index expression `x[i]` of the function, in source order -/\ndef %s_indices%s : List Int := %s\n\n", s.Name, params, leanBoolList(tr.indices))
+			fmt.Fprintf(&sb, "/-- every shift count of the function, in source order -/\ndef %s_shifts%s : List Int := %s\n\n", s.Name, params, leanBoolList(tr.shifts))
+			fmt.Fprintf(&sb, "/-- the initial value of the loop variable of every `for` loop -/\ndef %s_loopInits%s : List Int := %s\n\n", s.Name, params, leanBoolList(tr.loopInit))
 		}
 		if len(tr.flagSets) > 0 {
 			var names []string
